@@ -263,7 +263,7 @@ def r5_grouping_direction(ctx):
     ctx.check(bool(good), f, sorts[0] if sorts else f.node, "groups of equal score, sorted by score only, reverse = sort_high_low", d,
               f"ranking construction is `{d}`")
     # each group becomes one frozenset in that order
-    comps = [n for n in astx.walk_own(f.node) if isinstance(n, ast.ListComp) and sorts and any(x is sorts[0] for x in ast.walk(n))]
+    comps = [n for n in astx.walk_own(f.node) if isinstance(n, astx.LCOMP) and sorts and any(x is sorts[0] for x in ast.walk(n))]
     good = False
     if comps:
         g = comps[0].generators[0]
